@@ -17,6 +17,9 @@ inline int cbIdOf(const std::function<Sig> & f)
 	return t ? t->id() : -1;
 }
 inline int cbIdOf(const TCallback & t) { return t.id(); }
+// address of the TCallback stored in a callback object
+template <typename Sig> inline const void * cbAddrOf(const std::function<Sig> & f) { return f.template target<TCallback>(); }
+inline const void * cbAddrOf(const TCallback & t) { return &t; }
 
 struct NodeView { int cbid; unsigned counter; const void * addr; };
 
@@ -65,6 +68,16 @@ struct Access
 			node = node->next;
 		}
 		return "";
+	}
+
+	// is `addr` the TCallback stored in one of the linked nodes of l?
+	template <typename L>
+	static bool holdsCallbackObject(const L & l, const void * addr)
+	{
+		auto node = l.head;
+		int guard = 0;
+		while(node && ++guard < 100000) { if(vf::cbAddrOf(node->callback) == addr) return true; node = node->next; }
+		return false;
 	}
 
 	// ---- dispatcher: find the list of a key without creating it (nullptr if absent)
